@@ -172,7 +172,7 @@ def search(item, seed):
                 return dict(function="interpolate_list", input=dict(l1=l1, l2=l2, t1=t1, t2=t2, t=t), observed=why)
         return None
     # exhaustive small scope: up to 4 frames at times in 0..6, query -2..8, tolerance 0..4
-    for n in range(1, 5):
+    for n in range(0, 5):       # also no frame at all: nothing is returned
         for times in itertools.combinations(range(0, 7), n):
             for T in range(-2, 9):
                 for tol in range(0, 5):
